@@ -86,8 +86,11 @@ func useCheck(id, fam string, tier common.Tier) int {
 							continue
 						}
 						n := lenAll
-						if encl != e1.UEPlain && encl != e1.UETestOnlyFunc && !thorough {
-							n = 1
+						if !thorough {
+							rich := fam == "TONL" || ((mix.Allow == 1 || mix.Allow == 5) && !mix.TestOnly && (pk.Path == e1.UPkgU.Path || pk.Path == e1.UPkgW.Path))
+							if !(encl == e1.UEPlain && rich) && !(encl == e1.UETestOnlyFunc && fam == "TONL") {
+								n = 1
+							}
 						}
 						seqs(all, n, func(st []int) {
 							do(&e1.UseSpec{Pkg: pk, Mix: mix, Sites: sites, Blocks: []e1.UseBlock{{Encl: encl, File: file, Stmts: st}}})
@@ -133,8 +136,8 @@ func useCheck(id, fam string, tier common.Tier) int {
 						}
 					}
 				}
-				if fam == "PKGO" && !thorough && !(mix.Allow == 1 || mix.Allow == 5) {
-					continue // histories under two representative allow-lists in the quick tier
+				if fam == "PKGO" && !thorough && (!(mix.Allow == 1 || mix.Allow == 5) || mix.TestOnly || !(pk.Path == e1.UPkgU.Path || pk.Path == e1.UPkgW.Path)) {
+					continue // quick tier: histories under two representative allow-lists in two using packages
 				}
 				var rec func(h []e1.UseBlock)
 				rec = func(h []e1.UseBlock) {
